@@ -4,12 +4,17 @@
 pub mod common;
 pub mod c01;
 pub mod c02;
+pub mod c03;
 pub mod c04;
 pub mod c05;
+pub mod c06;
 pub mod c07;
 pub mod c08;
 pub mod c09;
 pub mod c10;
+pub mod c11;
+pub mod c12;
+pub mod c13;
 pub mod c14;
 pub mod c20;
 
@@ -38,12 +43,17 @@ pub fn all() -> Vec<Scenario> {
     let mut v = Vec::new();
     v.extend(c01::scenarios());
     v.extend(c02::scenarios());
+    v.extend(c03::scenarios());
     v.extend(c04::scenarios());
     v.extend(c05::scenarios());
+    v.extend(c06::scenarios());
     v.extend(c07::scenarios());
     v.extend(c08::scenarios());
     v.extend(c09::scenarios());
     v.extend(c10::scenarios());
+    v.extend(c11::scenarios());
+    v.extend(c12::scenarios());
+    v.extend(c13::scenarios());
     v.extend(c14::scenarios());
     v.extend(c20::scenarios());
     v
